@@ -11,7 +11,14 @@
 //	                                  | var:G:key | var:P:req:var | var:Q:req:var
 //	                                  | var:V:src:list        (source.<src>.<list>[next])
 //	   post = - | pp[+pp...]    pp   = J:var:field | H:var | A:code | B
-//	   tmpl = - | E | R:req
+//	   tmpl = base[!h|!t]          !h = templater: {type: html}, !t = templater: {type: text} (default: none written)
+//	   base = -                   the standard parts only
+//	        | E | EH | EU | EB    a template that fails at execution on every tree: header X-Bad (E: nothing written
+//	                              before the failing action, EH: after literal text), the URI after its other
+//	                              parameters (EU), the body after the dump of .request (EB)
+//	        | R:req               header X-Ref: {{.request.<req>.postprocessor.tok}}
+//	        | X:req               header X-Ref: v={{.request.<req>.postprocessor.tok.id}}  (a field of the captured
+//	                              string: fails once <req> has captured tok in this shot)
 //	scens  = scen[;scen...]     scen = name,weight|-,hexshoot[:hexshoot...][,min_waiting_time ms]
 //	script = - | k:act[,k:act...]   act = s<code> | g | t | n | m | h
 package a15
@@ -32,11 +39,12 @@ type Mapping struct {
 }
 
 type Req struct {
-	Name   string
-	Method string
-	Pre    []Mapping
-	Post   []string
-	Tmpl   string
+	Name      string
+	Method    string
+	Pre       []Mapping
+	Post      []string
+	Tmpl      string // base form
+	Templater string // "", "html", "text"
 }
 
 type Scen struct {
@@ -127,6 +135,11 @@ func ParseReqs(s string) []Req {
 	for _, p := range strings.Split(s, ";") {
 		f := strings.Split(p, ",")
 		r := Req{Name: f[0], Method: f[1], Tmpl: f[4]}
+		if strings.HasSuffix(r.Tmpl, "!h") {
+			r.Tmpl, r.Templater = strings.TrimSuffix(r.Tmpl, "!h"), "html"
+		} else if strings.HasSuffix(r.Tmpl, "!t") {
+			r.Tmpl, r.Templater = strings.TrimSuffix(r.Tmpl, "!t"), "text"
+		}
 		if f[2] != "-" {
 			for _, m := range strings.Split(f[2], "+") {
 				mf := strings.Split(m, ":")
@@ -212,8 +225,12 @@ func (s Spec) YAML(prefix string) []byte {
 		switch {
 		case r.Tmpl == "E":
 			hd["X-Bad"] = "{{.source.g.a.nofield}}"
+		case r.Tmpl == "EH":
+			hd["X-Bad"] = "pre-{{.source.g.b}}-{{.source.g.a.nofield}}-post"
 		case strings.HasPrefix(r.Tmpl, "R:"):
 			hd["X-Ref"] = "{{.request." + r.Tmpl[2:] + ".postprocessor.tok}}"
+		case strings.HasPrefix(r.Tmpl, "X:"):
+			hd["X-Ref"] = "v={{.request." + r.Tmpl[2:] + ".postprocessor.tok.id}}"
 		}
 		uri := fmt.Sprintf("/q%d?a={{.source.g.a}}", i)
 		for _, x := range r.Pre {
@@ -221,9 +238,18 @@ func (s Spec) YAML(prefix string) []byte {
 				uri += "&x={{.request." + r.Name + ".preprocessor.x}}"
 			}
 		}
+		if r.Tmpl == "EU" {
+			uri += "&z={{.source.g.a.nofield}}&t=1"
+		}
 		q := m{"name": r.Name, "method": r.Method, "uri": uri, "headers": hd}
 		if r.Method == "POST" {
 			q["body"] = "{{.request}}"
+		}
+		if r.Tmpl == "EB" {
+			q["body"] = "{{.request}}{{.source.g.a.nofield}}"
+		}
+		if r.Templater != "" {
+			q["templater"] = m{"type": r.Templater}
 		}
 		if len(r.Pre) > 0 {
 			mp := m{}
